@@ -193,6 +193,14 @@ class CallMixin:
                         b.attr_name = attr  # type: ignore[attr-defined]
                         return b
                     return FuncV(ci.module, d)
+                if isinstance(d, ast.expr) and not attr.startswith("_") and \
+                        any(b in ("enum.Enum", "enum.IntEnum", "enum.StrEnum", "enum.Flag", "enum.IntFlag") for b in self.repo.mro(ci.qual)):
+                    # a member of an in-repo enum: one object per member, with .name, .value and the class's methods
+                    mk = f"{ci.qual}.{attr}"
+                    if mk not in self.shared_objs:
+                        val = self.eval(d, {}, ci.module)
+                        self.shared_objs[mk] = ObjV(q, {"value": val, "_value_": val, "name": Const(attr), "_name_": Const(attr)}, f"enum:{ci.name}.{attr}")
+                    return self.shared_objs[mk]
                 try:
                     return self.eval(d, {}, ci.module)
                 except AnalysisError:
@@ -482,6 +490,22 @@ class CallMixin:
             if q in self.opaque_funcs:
                 self.event("call_repo_func", func=q, args=args)
                 return Sym("call", RefV(q), tuple(args), _kw(kwargs))
+            if isinstance(func.fn, ast.FunctionDef) and func.fn.decorator_list and not getattr(func, "bound_cls", None) and args:
+                regs = self.repo.singledispatch_table(func.module, func.fn)
+                if regs is not None:
+                    # functools.singledispatch: the implementation registered for the most specific class of the first argument
+                    a0 = self.resolve_alt(args[0])
+                    cands = []
+                    for texpr, rm, impl in regs:
+                        tv = self.eval(texpr, {}, rm)
+                        tq = tv.qual if isinstance(tv, RefV) else ""
+                        depth = len(self.repo.mro(tq)) if tq in self.repo.classes else (2 if tq != "builtins.object" else 0)
+                        cands.append((depth, tv, rm, impl))
+                    for _, tv, rm, impl in sorted(cands, key=lambda c: -c[0]):
+                        if self.isinstance_v(a0, tv):
+                            return self.call_function(rm, impl, [a0] + list(args[1:]), kwargs, None)
+                    return self.call_function(func.module, func.fn, [a0] + list(args[1:]), kwargs, None,
+                                              closure=func.closure if isinstance(func.closure, dict) else None)
             args = self.flatten_stars(args)
             if any(isinstance(a, Sym) and a.op == "star" for a in args) and not self.stars_fit_vararg(func.fn, args, 0):
                 self.event("star_call", func=q)
@@ -1138,7 +1162,15 @@ class CallMixin:
                         n = PyList(list(v.items))
                         n.loop_parts = list(v.loop_parts)
                         n.created_in = self._frame_id()
+                        for extra in ("_minextra", "_tail_start", "_part_meta", "rev"):
+                            if hasattr(v, extra):
+                                setattr(n, extra, getattr(v, extra))  # same elements in the same order: same bounds
                         return n
+                    if isinstance(v, ListV):
+                        cp = AbsList(v.elem, self.list_minlen(v))
+                        cp.created_in = self._frame_id()  # type: ignore[attr-defined]
+                        cp.copy_of = v  # type: ignore[attr-defined]  # a shallow copy: same elements, same length, a list of its own
+                        return cp
                     if isinstance(v, MapV):
                         # list(map(f, xs)) / list(<generator over xs>): the same element-wise image of xs, as a list
                         m2 = MapV(v.over, v.elem, v.var)
@@ -1284,7 +1316,9 @@ class CallMixin:
             if items is not None:
                 return PyList([PyTuple([Const(i), x]) for i, x in enumerate(items)])
             if isinstance(a[0], (ListV, AbsList, MapV)):
-                return AbsList(PyTuple([Sym("index", a[0], hint="int"), a[0].elem]), self.list_minlen(a[0]))
+                en = AbsList(PyTuple([Sym("index", a[0], hint="int"), a[0].elem]), self.list_minlen(a[0]))
+                en.enumerate_of = a[0]  # type: ignore[attr-defined]
+                return en
         if name == "map" and len(a) == 2:
             items = self.concrete_items(a[1])
             if items is not None:
@@ -1295,10 +1329,25 @@ class CallMixin:
                 src = a[1]
                 e0 = src.elem if not isinstance(src, PyList) else self._elem_of_pylist(src)
                 return MapV(src, self.call_v(a[0], [e0], {}, module, node, env))
+            if isinstance(a[1], Sym) and a[1].op == "call" and not kwargs:
+                # an iterable the analysis knows nothing about (e.g. mapping.keys()): the image of its elements, one by one
+                src = a[1]
+                self.event("iterate_opaque", value=_describe(src), where=self.cur_where)
+                self.loop_ctx.append(src)
+                try:
+                    img = self.call_v(a[0], [Sym("elemof", src)], {}, module, node, env)
+                finally:
+                    self.loop_ctx.pop()
+                return MapV(src, img)
         if name == "zip" and len(a) == 1 and isinstance(a[0], Sym) and a[0].op == "star":
             cols = self.unzip(self.resolve_alt(a[0].args[0]))
             if cols is not None:
                 return PyTuple(cols)
+        if name == "zip" and len(a) >= 2 and not kwargs and all(isinstance(x, (MapV, AbsList, ListV)) for x in a):
+            # element-wise pairs of sequences of unknown length (as long as the shortest)
+            zl = AbsList(PyTuple([x.elem for x in a]), min(self.list_minlen(x) if not isinstance(x, MapV) else 0 for x in a))
+            zl.zip_of = tuple(a)  # type: ignore[attr-defined]
+            return zl
         if name == "zip" and a:
             its = [self.concrete_items(x) for x in a]
             if all(i is not None for i in its):
@@ -1407,6 +1456,15 @@ class CallMixin:
                 self.may_raise("builtins.AttributeError", f"getattr({obj.label}, {name!r})")
             else:
                 self.event("dynamic_getattr_default", default=default, prefix=prefix)
+                if (isinstance(default, Sym) and default.op == "sentinel") or (isinstance(default, Const) and default.v is None):
+                    # a marker for "no such method": the two cases are told apart later (`is MISSING`), so they are two paths here;
+                    # the missing case is the one an `except AttributeError` around a two-argument getattr would take
+                    found = self.unknown_bool(f"hasattr({obj.label}, {_describe(name)})")
+                    if not found:
+                        self.event("may_raise", exc="builtins.AttributeError", what=f"getattr({obj.label}, {name!r})", caught=True, definite=False,
+                                   func=self._frame_id(), in_exc_ctor=None)
+                        return default
+                    return Sym("dynmethod", obj, prefix, key)
             return Sym("dynmethod", obj, prefix, key) if default is None else Sym("dynmethod_or", obj, prefix, key, default)
         if isinstance(obj, (NodeV, NewNode)):
             # getattr(node, field.name) inside iter_dataclass_fields: name from a concrete field list
@@ -1492,13 +1550,28 @@ class CallMixin:
                 seq = rseq
             if isinstance(seq, PyList) and seq.loop_parts:
                 parts = []
-                for i, it in enumerate(seq.items):
+                k_tail = getattr(seq, "_tail_start", len(seq.items))
+                for i, it in enumerate(seq.items[:k_tail]):
                     if i:
                         parts.extend(to_str_parts(sep))
                     parts.extend(to_str_parts(it))
+                tail_items = list(seq.items[k_tail:])
                 for over, per in seq.loop_parts:
+                    meta = getattr(seq, "_part_meta", {}).get(id(over))
+                    sq = (meta or {}).get("seq", {})
+                    if meta and self._rounds_run.get(id(over)) == 2 and len(sq.get(1, [])) == 1 and len(sq.get(2, [])) == 2 and \
+                            repr(sq[2][1]) == repr(sq[1][0]) and isinstance(sq[2][0], Const) and isinstance(sq[2][0].v, str) and \
+                            isinstance(sep, Const) and isinstance(sep.v, str):
+                        # the first iteration appends A, every later one S then A: the pieces of S.join(A ...) (with the outer separator around S)
+                        if k_tail and parts:
+                            parts.extend(to_str_parts(sep))
+                        parts.append(("join", Const(sep.v + sq[2][0].v + sep.v), sq[1][0], getattr(over, "enumerate_of", None) or over))
+                        continue
                     elem = per[0] if len(per) == 1 else AltV(per)
                     parts.append(("join", sep, elem, over))
+                for it in tail_items:
+                    parts.extend(to_str_parts(sep))
+                    parts.extend(to_str_parts(it))
                 return Str(parts)
             if isinstance(seq, Sym) and seq.op == "call" and isinstance(seq.args[0], Sym) and seq.args[0].op == "attr" and seq.args[0].args[1] == "split" \
                     and isinstance(seq.args[0].args[0], Sym) and seq.args[0].args[0].op == "regex" and len(seq.args[1]) == 1 and not seq.args[2]:
@@ -1573,6 +1646,41 @@ class CallMixin:
         if name in ("startswith", "endswith", "isdigit", "isupper", "islower", "isalpha", "isalnum", "isidentifier"):
             return Const(self.unknown_bool(f"{_describe(base)}.{name}({','.join(_describe(x) for x in a)})"))
         if name == "format":
+            tmpl = base.v if isinstance(base, Const) and isinstance(base.v, str) else (base.const() if isinstance(base, Str) and base.is_const() else None)
+            if tmpl is not None and "**" not in kwargs and not any(isinstance(x, Sym) and x.op == "star" for x in a):
+                # a constant template with plain replacement fields ({} / {0} / {name}, no conversion, no format spec) is concatenation
+                import string as _string
+                try:
+                    fields = list(_string.Formatter().parse(tmpl))
+                except ValueError:
+                    fields = None
+                parts: list = []
+                auto = 0
+                ok = fields is not None
+                for lit_text, fname, spec, conv in (fields or []):
+                    if lit_text:
+                        parts.append(("lit", lit_text))
+                    if fname is None:
+                        continue
+                    if spec or conv or any(c in fname for c in ".["):
+                        ok = False
+                        break
+                    if fname == "":
+                        idx, auto = auto, auto + 1
+                        val = a[idx] if idx < len(a) else None
+                    elif fname.isdigit():
+                        val = a[int(fname)] if int(fname) < len(a) else None
+                    else:
+                        val = kwargs.get(fname)
+                    if val is None:
+                        ok = False
+                        break
+                    from .interp_expr import is_strlike as _is_strlike
+                    rv = self.resolve_alt(val)
+                    parts.extend(to_str_parts(rv) if _is_strlike(rv) else to_str_parts(rv, (("str",),)))
+                if ok:
+                    st = Str(parts)
+                    return Const(st.const()) if st.is_const() else st
             return Str([("dyn", Sym("format", base, tuple(a), _kw(kwargs)), ())])
         if name in ("encode",):
             return Sym("call", Sym("attr", base, name), tuple(a), ())
@@ -1580,6 +1688,9 @@ class CallMixin:
 
     def list_method(self, base: V, name: str, a: List[V], kwargs, module, node) -> V:
         own = isinstance(base, (PyList, AbsList)) and getattr(base, "created_in", None) is not None
+        if name == "insert" and len(a) == 2 and isinstance(a[0], Const) and a[0].v == 0 and isinstance(base, PyList) and base.created_in is not None \
+                and (self.loop_ctx or base.loop_parts):
+            name, a = "appendleft", [a[1]]  # xs.insert(0, x) grows the list at the left, like deque.appendleft
         if name in ("appendleft", "popleft", "extendleft"):
             if not (isinstance(base, PyList) and base.created_in is not None):
                 raise AnalysisError(f"deque.{name} on a sequence not built in this function", self.cur_where)
